@@ -120,6 +120,9 @@ func (g *genCtx) leaf() Node {
 		return Node{K: "go", Name: g.tags[g.r.Intn(len(g.tags))]}
 	case x < 88:
 		return Node{K: "err", Name: errLeaves[g.r.Intn(len(errLeaves))]}
+	case x < 94:
+		g.nextID++
+		return Node{K: "recur", ID: g.nextID}
 	}
 	return Node{K: "val"}
 }
@@ -231,6 +234,13 @@ func (n *Node) render(dir string, b *strings.Builder) {
 		fmt.Fprintf(b, "(progn (sim-emit \"leaf\" \"go\" \"%s\") (go %s))", n.Name, n.Name)
 	case "err":
 		fmt.Fprintf(b, "(progn (sim-emit \"signal\" \"%s\") %s)", n.Name, errForm(n.Name))
+	case "recur":
+		// A function whose cleanup re-enters the function while its own
+		// return-from is still on its way to the block: the exit must yield
+		// the value given at that activation. Called twice (the second call
+		// runs the already compiled body).
+		w := fmt.Sprintf("w%d%s", n.ID, filepath.Base(dir))
+		fmt.Fprintf(b, "(progn (defun %s (n) (block wb (unwind-protect (return-from wb n) (when (> n 0) (sim-emit \"walk\" n (%s (- n 1))))))) (sim-emit \"walktop\" (%s 2)) (sim-emit \"walktop\" (%s 2)))", w, w, w, w)
 	case "seq":
 		fmt.Fprintf(b, "(progn %s)", all())
 	case "let":
@@ -519,6 +529,14 @@ func (c *Case) judge(out runOut, f *Fault) *harness.Violation {
 			inCS[fs[1]] = true
 		case "cs-leave":
 			inCS[fs[1]] = false
+		case "walk":
+			if len(fs) == 3 && fs[2] != fmt.Sprint(atoi(fs[1])-1) {
+				return viol("exit-value", "%s: (return-from wb %s) in a re-entered function yielded %s to its block; trace: %s", what, fmt.Sprint(atoi(fs[1])-1), fs[2], trace(out.marks))
+			}
+		case "walktop":
+			if len(fs) == 2 && fs[1] != "2" {
+				return viol("exit-value", "%s: (return-from wb 2) yielded %s after the cleanup re-entered the function; trace: %s", what, fs[1], trace(out.marks))
+			}
 		case "signal":
 			lastSignal = fs[1]
 		case "wrote":
@@ -554,6 +572,12 @@ func (c *Case) judge(out runOut, f *Fault) *harness.Violation {
 	}
 	_ = interrupted
 	return nil
+}
+
+func atoi(s string) int {
+	n := 0
+	fmt.Sscan(s, &n)
+	return n
 }
 
 func countFiles(n *Node) int {
